@@ -203,10 +203,20 @@ def run_json(case, acc, order):
     if isinstance(back, BaseException):
         feats = sorted(set(value_kind(vn) for _, vn in case['entries']))
         kf = sorted(set(key_kind(k) for k, _ in case['entries']))
-        # attribute the failure to the smallest sub-dictionary if several entries
-        sig = '%s/json/%s/%s' % (PROP, feats[0] if len(case['entries']) == 1
-                                 else 'multi(%s|%s)' % (','.join(kf), ','.join(feats)),
-                                 type(back).__name__)
+        # attribute the failure to the smallest sub-dictionary that shows it
+        culprit = None
+        if len(case['entries']) > 1:
+            for kname, vname in case['entries']:
+                with core.Scratch() as d1:
+                    try:
+                        save_json(d1 / 'one.json', {KEYS[kname]: value_from_name(vname, seed)})
+                        load_json(d1 / 'one.json')
+                    except Exception as e1:
+                        if type(e1) is type(back):
+                            culprit = value_kind(vname)
+                            break
+        sig = '%s/json/%s/%s' % (PROP, feats[0] if len(case['entries']) == 1 else (
+            culprit or 'multi(%s|%s)' % (','.join(kf), ','.join(feats))), type(back).__name__)
         acc.step(nontrivial, 'json:exception')
         acc.violation(sig, core.make_record(PROP, 'json', sig, case=case,
                                             expected=describe_expected(expected),
